@@ -166,23 +166,23 @@ h_counts!(c16_q_zl_f16x2, c16_q_ol_f16x2, c16_q_tr_f16x2, 4, f16x2(anylen(32)), 
 h_counts!(c16_q_zl_f32x2, c16_q_ol_f32x2, c16_q_tr_f32x2, 4, f32x2(anylen(64)), multi, 32);
 h_counts!(c16_q_zl_f64x1, c16_q_ol_f64x1, c16_q_tr_f64x1, 3, f64x1(anylen(64)), single, 64);
 h_counts!(c16_q_zl_f64x2, c16_q_ol_f64x2, c16_q_tr_f64x2, 4, f64x2(anylen(128)), multi, 64);
-h_counts!(c16_t_zl_f32x1, c16_t_ol_f32x1, c16_t_tr_f32x1, 3, f32x1(anylen(32)), single, 32);
-h_counts!(c16_t_zl_f64x3, c16_t_ol_f64x3, c16_t_tr_f64x3, 5, f64x3(anylen(192)), multi, 64);
-h_counts!(c16_t_zl_fuszx2, c16_t_ol_fuszx2, c16_t_tr_fuszx2, 4, fuszx2(anylen(128)), multi, 64);
-h_counts!(c16_t_zl_f128x1, c16_t_ol_f128x1, c16_t_tr_f128x1, 3, f128x1(anylen(128)), single, 128);
-h_counts!(c16_t_zl_f128x2, c16_t_ol_f128x2, c16_t_tr_f128x2, 4, f128x2(anylen(256)), multi, 128);
+h_counts!(c16_q_zl_f32x1, c16_q_ol_f32x1, c16_q_tr_f32x1, 3, f32x1(anylen(32)), single, 32);
+h_counts!(c16_q_zl_f64x3, c16_q_ol_f64x3, c16_q_tr_f64x3, 5, f64x3(anylen(192)), multi, 64);
+h_counts!(c16_q_zl_fuszx2, c16_q_ol_fuszx2, c16_q_tr_fuszx2, 4, fuszx2(anylen(128)), multi, 64);
+h_counts!(c16_q_zl_f128x1, c16_q_ol_f128x1, c16_q_tr_f128x1, 3, f128x1(anylen(128)), single, 128);
+h_counts!(c16_q_zl_f128x2, c16_q_ol_f128x2, c16_q_tr_f128x2, 4, f128x2(anylen(256)), multi, 128);
 
 // ---- Bvd: W allocated words, every len 0..=64 W (spare words whenever len <= 64 (W-1)) ------
 h_counts!(c16_q_zl_bvd1, c16_q_ol_bvd1, c16_q_tr_bvd1, 3, bvd1(anylen(64)), single, 64);
 h_counts!(c16_q_zl_bvd2, c16_q_ol_bvd2, c16_q_tr_bvd2, 4, bvd2(anylen(128)), multi, 64);
 h_counts!(c16_q_zl_bvd3, c16_q_ol_bvd3, c16_q_tr_bvd3, 5, bvd3(anylen(192)), multi, 64);
-h_counts!(c16_t_zl_bvd4, c16_t_ol_bvd4, c16_t_tr_bvd4, 6, bvd4(anylen(256)), multi, 64);
+h_counts!(c16_q_zl_bvd4, c16_q_ol_bvd4, c16_q_tr_bvd4, 6, bvd4(anylen(256)), multi, 64);
 
 // ---- Bv, inline and heap mode ----------------------------------------------------------------
 h_counts!(c16_q_zl_bvfix, c16_q_ol_bvfix, c16_q_tr_bvfix, 4, bvfix(anylen(128)), multi, 64);
 h_counts!(c16_q_zl_bvdyn2, c16_q_ol_bvdyn2, c16_q_tr_bvdyn2, 4, bvdyn2(anylen(128)), multi, 64);
-h_counts!(c16_t_zl_bvdyn1, c16_t_ol_bvdyn1, c16_t_tr_bvdyn1, 3, bvdyn1(anylen(64)), single, 64);
-h_counts!(c16_t_zl_bvdyn3, c16_t_ol_bvdyn3, c16_t_tr_bvdyn3, 5, bvdyn3(anylen(192)), multi, 64);
+h_counts!(c16_q_zl_bvdyn1, c16_q_ol_bvdyn1, c16_q_tr_bvdyn1, 3, bvdyn1(anylen(64)), single, 64);
+h_counts!(c16_q_zl_bvdyn3, c16_q_ol_bvdyn3, c16_q_tr_bvdyn3, 5, bvdyn3(anylen(192)), multi, 64);
 
 /// The empty `Bvd` without any storage word (what `Bvd::zeros(0)` produces).
 harness!(c16_q_bvd0, 2, {
